@@ -61,6 +61,14 @@ ParseInt(s) ==
 CodePoints == {-1, 0, 65, 127, 128, 2047, 2048, 55295, 55296, 56000, 57343, 57344, 65535, 65536, 1114111, 1114112, 2000000000}
 IsScalar(n) == n >= 0 /\ n <= 1114111 /\ ~(n >= 55296 /\ n <= 57343)
 Utf8Len(n) == IF n < 128 THEN 1 ELSE IF n < 2048 THEN 2 ELSE IF n < 65536 THEN 3 ELSE 4
+(* The argument is an Int64; TLC's integers are 32-bit, so values beyond that are written in base 2^16 with a sign: *)
+(* v = sign * (a * 2^48 + b * 2^32 + c * 2^16 + d).  A scalar value has a = b = 0 - in particular an argument     *)
+(* whose LOW 32 bits happen to be a scalar value (2^32 + 65, -(2^32 - 65)) is NOT a code point.                    *)
+WideCodePoints == {[neg |-> g, a |-> a, b |-> b, c |-> cd[1], d |-> cd[2]] :
+                     g \in BOOLEAN, a \in {0, 1, 256, 32767}, b \in {0, 1, 65535},
+                     cd \in {<<0, 0>>, <<0, 65>>, <<1, 63042>>, <<16, 65535>>, <<17, 0>>, <<0, 55296>>, <<65535, 65535>>, <<65535, 65471>>}}
+WideIsScalar(w) == (~w.neg \/ (w.a = 0 /\ w.b = 0 /\ w.c = 0 /\ w.d = 0)) /\ w.a = 0 /\ w.b = 0 /\ w.c <= 16 /\ IsScalar(w.c * 65536 + w.d)
+WideLen(w) == Utf8Len(w.c * 65536 + w.d)
 
 ----------------------------------------------------------------------------
 (* UTF-8 well-formedness (Unicode table 3-7) as an automaton over bytes.   *)
@@ -105,7 +113,7 @@ ABSENT == <<-1>>
 Groups ==
   CASE Part = "text" -> {[k |-> "text", s |-> s] : s \in Strings(MaxStr)}
     [] Part = "parse" -> {[k |-> "parse", s |-> s] : s \in Strings(MaxStr)}
-    [] Part = "codepoint" -> {[k |-> "cp"]}
+    [] Part = "codepoint" -> {[k |-> "cp"], [k |-> "cpw"]}
     [] Part = "utf8" -> {[k |-> "utf8", b |-> b] : b \in Bytes}
     [] Part = "handles" -> {[k |-> "handles"]}
 
@@ -129,6 +137,8 @@ RowStep ==
        [] grp.k = "parse" -> row' = [k |-> "parse_int", s |-> grp.s, r |-> ParseInt(grp.s)]
        [] grp.k = "cp" -> \E n \in CodePoints :
             row' = [k |-> "from_codepoint", n |-> n, some |-> IsScalar(n), bytes |-> IF IsScalar(n) THEN Utf8Len(n) ELSE 0]
+       [] grp.k = "cpw" -> \E w \in WideCodePoints :
+            row' = [k |-> "from_codepoint_wide", w |-> w, some |-> WideIsScalar(w), bytes |-> IF WideIsScalar(w) THEN WideLen(w) ELSE 0]
        [] grp.k = "utf8" -> \E bs \in {<<grp.b>>} \cup {<<grp.b, c>> : c \in Bytes} \cup {<<grp.b, c, d>> : c, d \in {128, 143, 144, 159, 160, 191, 65}}
                                       \cup {<<grp.b, c, d, e>> : c \in {128, 143, 144, 191}, d, e \in {128, 191, 65}} :
             row' = [k |-> "bytes_to_str", bytes |-> bs, valid |-> Utf8Valid(bs), scalars |-> CountScalars(bs)]
